@@ -15,6 +15,7 @@ switches), with injected setup-function faults.  Oracles:
 """
 import copy
 import functools
+import hashlib
 import random
 import traceback
 
@@ -23,7 +24,7 @@ from ..supervisor import run_seed
 
 PROPERTY_IDS = ["C11"]
 LEVEL = "exploration"
-WORLD_TIMEOUT = 60
+WORLD_TIMEOUT = 300
 WORLD_PIPE = None
 CONTEXT_OPS = ("episode",)
 
@@ -59,6 +60,9 @@ PROBES = {
         "mode-switch",
         "xdata-call",
         "pristine-compared",
+        "recurring-call-compared",
+        "shuffled-batch-compared",
+        "overlapping-specs-input",
     ]
 }
 
@@ -217,7 +221,8 @@ def do_call(d, op, isa_name, setmode):
     except RecursionError:
         out = ["exc", "RecursionError", ""]
     except Exception as e:
-        tb = traceback.extract_tb(e.__traceback__)
+        # innermost frame that is amoco's own (the fault trampoline's frame is ours)
+        tb = [fr for fr in traceback.extract_tb(e.__traceback__) if "amosim" not in fr.filename]
         out = ["exc", type(e).__name__, tb[-1].name if tb else ""]
     finally:
         Arm.count = None
@@ -244,6 +249,59 @@ class Gen(object):
         self.is_x64 = isa_name.endswith("cpu_x64")
         self.pfx_specs = [[s for s in S if s.pfx is True] for S in self.sets]
         self.recent = []
+        self.archive = []  # long-term sample of earlier inputs (re-issued much later)
+        self.seen = 0
+        self._overlaps = {}
+
+    def overlaps(self, mode_idx):
+        """(word, mask, nbits) for every pair of specs of one leaf of the decoder
+        tree that accept a common word: the inputs for which the *order* of the
+        linear search inside a leaf (or any memo of its result) decides the outcome"""
+        k = mode_idx if mode_idx < len(self.d.specs) else 0
+        if k in self._overlaps:
+            return self._overlaps[k]
+        out = []
+        maxsize = self.d.maxlen * 8
+        be = self.endian == -1
+
+        def adj(x):
+            return x.ival << (maxsize - x.size) if be else x.ival
+
+        def walk(fl):
+            f, l = fl
+            if f == 0:
+                L = list(l)[:40]
+                for i in range(len(L)):
+                    for j in range(i + 1, len(L)):
+                        a, b = L[i], L[j]
+                        if a.fix.size == 0 or b.fix.size == 0:
+                            continue
+                        ma, mb = adj(a.mask), adj(b.mask)
+                        fa, fb = adj(a.fix), adj(b.fix)
+                        if (fa ^ fb) & ma & mb:
+                            continue
+                        out.append((fa | fb, ma | mb, max(a.fix.size, b.fix.size)))
+            else:
+                for kk in sorted(l.keys()):
+                    walk(l[kk])
+
+        walk(self.d.specs[k])
+        self._overlaps[k] = out
+        return out
+
+    def overlap_word(self, rng, mode_idx):
+        O = self.overlaps(mode_idx)
+        if not O:
+            return self.valid(rng, mode_idx)
+        w, m, n = rng.choice(O)
+        maxsize = self.d.maxlen * 8
+        if self.endian == -1:
+            t = rng.getrandbits(maxsize)
+            W = w | (t & ~m & ((1 << maxsize) - 1))
+            return W.to_bytes(maxsize // 8, "big")
+        t = rng.getrandbits(n)
+        W = w | (t & ~m & ((1 << n) - 1))
+        return W.to_bytes(n // 8, "little") + bytes(rng.randrange(256) for _ in range(rng.choice([0, 0, 1, 4, self.d.maxlen])))
 
     def valid(self, rng, mode_idx):
         S = self.sets[mode_idx if mode_idx < len(self.sets) else 0]
@@ -272,7 +330,7 @@ class Gen(object):
         mode = self.modes[mi]
         kind = weighted(
             rng,
-            [("valid", 4), ("pvalid", 4), ("trunc", 3), ("pfxonly", 1.5), ("random", 1.5), ("repeat", 2), ("strip", 1.5), ("addpfx", 1.5), ("pfxrun", 0.8), ("empty", 0.2)],
+            [("valid", 4), ("pvalid", 4), ("trunc", 3), ("pfxonly", 1.5), ("random", 1.5), ("repeat", 2), ("strip", 1.5), ("addpfx", 1.5), ("pfxrun", 0.8), ("empty", 0.2), ("overlap", 2.5), ("again", 2.5)],
         )
         note = None
         if kind == "valid":
@@ -290,6 +348,14 @@ class Gen(object):
             b = bytes(rng.randrange(256) for _ in range(rng.randint(1, self.d.maxlen + 2)))
         elif kind == "repeat" and self.recent:
             b = bytes.fromhex(rng.choice(self.recent))
+        elif kind == "again" and self.archive:
+            # an input of long ago, as it was (same bytes, mode, address, fault decision)
+            op = dict(rng.choice(self.archive))
+            return op
+        elif kind == "overlap":
+            b = self.overlap_word(rng, mi)
+            if rng.random() < 0.6:
+                b = self.prefixes(rng, mi) + b
         elif kind == "pfxrun":
             # a run of prefix bytes around the decoder's limits (longest instruction, fetch
             # window) and, rarely, around the interpreter's recursion limit
@@ -320,6 +386,8 @@ class Gen(object):
             # unbounded count is a totality matter (C17), not a history effect
             b = b[:1] + bytes([b[1] & 0x1F]) + b[2:]
         op = {"op": "decode", "bytes": b.hex(), "mode": mode, "fault": note}
+        if kind == "overlap":
+            op["g"] = "overlap"
         if rng.random() < 0.2:
             op["address"] = rng.choice([0, 0x1000, 0x7FFFFFF0])
         if self.name.endswith("wasm.cpu"):
@@ -336,6 +404,13 @@ class Gen(object):
             self.recent.append(op["bytes"])
         if len(self.recent) > 12:
             self.recent.pop(0)
+        # reservoir sample of everything issued so far
+        self.seen += 1
+        if len(op["bytes"]) < 200:
+            if len(self.archive) < 256:
+                self.archive.append(op)
+            elif rng.random() < 256.0 / self.seen:
+                self.archive[rng.randrange(256)] = op
         return op
 
 
@@ -377,6 +452,20 @@ def _reference(req):
     """executed in a pristine reference world: one call, no history."""
     from .. import isa as I
 
+    if "batch" in req:
+        # many calls in one pristine process, in the order given (a different
+        # order from the world's, ISAs mixed): decoding being memoryless, every
+        # outcome must be the one the world saw
+        for name in sorted(set(n for n, t, _ in req["batch"] if t)):
+            install_trampolines(I.LOADED[name].disassemble)
+        sm = {}
+        outs = []
+        for name, _, op in req["batch"]:
+            cpu = I.LOADED[name]
+            if name not in sm:
+                sm[name] = _setmode_fn(name, cpu)
+            outs.append(do_call(cpu.disassemble, op, name, sm[name])[0])
+        return outs
     cpu = I.LOADED[req["isa"]]
     if req.get("tramp"):
         install_trampolines(cpu.disassemble)
@@ -492,6 +581,8 @@ def _history(spec, config, rng, refsrv):
     e_calls = e_ok = e_fault = 0
     last = None  # (op, outcome, isa, tramp) of the latest call, for the pristine oracle
     to_check = []
+    first = {}  # call key -> (outcome, step) of its first occurrence in this process
+    latest = {}  # call key -> (op, outcome, isa, tramp, step) of its latest occurrence
 
     def close_episode():
         if ep is None:
@@ -500,7 +591,7 @@ def _history(spec, config, rng, refsrv):
         if e_calls >= 2 and e_ok >= 1 and (e_fault >= 1 or not ep.get("faults")):
             digests.append(elog.digest())
             st.hit("episodes-nontrivial")
-        if last is not None and (len(to_check) < 24) and (st.c["episodes"] % 12 == 1):
+        if last is not None and (len(to_check) < 10) and (st.c["episodes"] % 25 == 1):
             to_check.append(last)
 
     while viol is None:
@@ -567,8 +658,25 @@ def _history(spec, config, rng, refsrv):
         prev_mode = op.get("mode")
         st.hit("calls")
         st.hit("isa-calls:" + I_short(name))
+        if op.get("g") == "overlap" and got[0] == "ok" and got[1] is not None:
+            st.hit("probe:overlapping-specs-input")
         if getattr(S.sut, "_disassembler__i", None) is not None:
             st.hit("pending-state-left-after-call")
+        # oracle 1b: the same call earlier in this process (whatever happened in between)
+        ck = _callkey(name, op, bool(ep.get("fresh_copy")))
+        if ck in first:
+            st.hit("probe:recurring-call-compared")
+            if first[ck][0] != got:
+                viol = {
+                    "class": "outcome-differs-from-first-occurrence",
+                    "signature": "decsim:%s:recurrence:%s" % (I_short(name), _diffkind(got, first[ck][0], b)),
+                    "detail": {"step": step, "first_step": first[ck][1], "op": op, "expected": first[ck][0], "observed": got},
+                }
+                break
+        else:
+            first[ck] = (got, step)
+        if not ep.get("fresh_copy") and len(op["bytes"]) < 200:
+            latest[ck] = (op, got, name, S.tramp, step)
         # oracle 1: memoryless reference
         if got != exp:
             viol = {
@@ -606,6 +714,43 @@ def _history(spec, config, rng, refsrv):
                 }
                 src.trace = src.trace[: k + 1]
                 break
+    # oracle 2b: a pristine process decodes a sample of this world's distinct calls in
+    # another order (sorted by a hash of the call); a mismatch is settled by asking a
+    # pristine process for that one call alone
+    if viol is None and latest and spec.get("kind") != "trace":
+        items = sorted((hashlib.sha256(ck.encode()).hexdigest(), v) for ck, v in latest.items())
+        items = [v for _, v in items[:BATCH_N]]
+        outs = refsrv.query({"batch": [[v[2], bool(v[3]), v[0]] for v in items]})
+        st.hit("probe:shuffled-batch-compared", len(items))
+        for n_, (v, pr) in enumerate(zip(items, outs)):
+            if pr == v[1]:
+                continue
+            name, tramp = v[2], bool(v[3])
+            alone = refsrv.query({"isa": name, "op": v[0], "tramp": tramp})
+            if alone != v[1]:
+                viol = {
+                    "class": "outcome-differs-from-pristine-process",
+                    "signature": "decsim:%s:pristine:%s" % (I_short(name), _diffkind(v[1], alone, b"")),
+                    "detail": {"step": v[4], "op": v[0], "expected": alone, "observed": v[1]},
+                }
+                src.trace = src.trace[: v[4] + 1]
+            else:
+                # the world agrees with the pristine process; the batch process (whose
+                # history is the batch prefix) does not: that prefix is the failing history
+                viol = {
+                    "class": "outcome-differs-from-pristine-process",
+                    "signature": "decsim:%s:pristine:%s" % (I_short(name), _diffkind(pr, alone, b"")),
+                    "detail": {"op": v[0], "expected": alone, "observed": pr, "history": "shuffled batch prefix"},
+                }
+                tr = []
+                cur = None
+                for x in items[: n_ + 1]:
+                    if (x[2], bool(x[3])) != cur:
+                        cur = (x[2], bool(x[3]))
+                        tr.append({"op": "episode", "isa": x[2], "faults": bool(x[3]), "fresh_copy": False})
+                    tr.append(x[0])
+                src.trace = tr
+            break
     res = {
         "status": "violation" if viol else "ok",
         "digest": wlog.digest(),
@@ -627,6 +772,15 @@ def _history(spec, config, rng, refsrv):
 
 def I_short(name):
     return name.replace("amoco.arch.", "")
+
+
+BATCH_N = 6000
+
+
+def _callkey(name, op, fresh):
+    f = op.get("fault") or {}
+    fk = (f.get("nth"), f.get("exc")) if f.get("kind") == "setup-raises" else None
+    return repr((name, op.get("bytes"), op.get("mode"), op.get("address"), op.get("code"), fk))
 
 
 def _starts_with_prefix(gen, b):
